@@ -73,7 +73,7 @@ package altbn128
 //@   opt safe index slice div
 //@   opt noframe 1
 //@   requires [well-sized-input] len(m) == 32
-//@   modifies ghost.g1Accepted
+//@   modifies ghost.g1Accepted, ghost.g1Builds
 //@   ensures [error-or-point] err != nil || result0 != nil
 //@   ensures [decompressed-point-was-accepted-by-bn256] err == nil ==> ghost.g1Accepted
 
@@ -103,11 +103,14 @@ package altbn128
 //@   opt noframe 1
 //@   ensures [compressed-g2-is-64-bytes] len(result) == 64
 
+//@ ghost g1Builds int
 //@ func G1FromInts
 //@   property C04
 //@   opt noframe 1
 //@   requires x != nil && y != nil
-//@   modifies ghost.g1Accepted
+//@   modifies ghost.g1Accepted, ghost.g1Builds
+//@   yields ghost.g1Builds = old(ghost.g1Builds) + 1
+//@   ensures ghost.g1Builds == old(ghost.g1Builds) + 1
 //@   ensures err != nil || result0 != nil
 //@   ensures [a-point-is-returned-without-error-only-if-bn256-accepted-the-coordinates] err == nil ==> ghost.g1Accepted
 //@ func G2FromInts
@@ -117,3 +120,19 @@ package altbn128
 //@   modifies ghost.g2Accepted
 //@   ensures err != nil || result0 != nil
 //@   ensures [a-point-is-returned-without-error-only-if-bn256-accepted-the-coordinates] err == nil ==> ghost.g2Accepted
+
+// Hashing to G1 (partial correctness; termination of try-and-increment is a
+// number-theoretic fact and is not claimed): whenever the function returns, it
+// returns the point built by G1FromInts from a candidate x for which a square
+// root exists - it has no other way out.
+//@ func yFromX
+//@   property C04
+//@   opt noframe 1
+//@   requires x != nil
+//@ func G1HashToPoint
+//@   property C04
+//@   opt noframe 1
+//@   modifies ghost.g1Accepted, ghost.g1Builds
+//@   ensures [every-return-is-a-point-built-from-a-curve-candidate] ghost.g1Builds == old(ghost.g1Builds) + 1
+//@   assert call:G1FromInts : [the-point-is-built-from-a-candidate-with-a-square-root] arg1 != nil && arg0 == x
+//@   loop 1 invariant ghost.g1Builds == old(ghost.g1Builds) && x != nil
